@@ -13,8 +13,7 @@ rsync -a --delete --exclude harness/target --exclude harness/fuzz/target --exclu
 sed -i "s#path = \"/repo\"#path = \"$S/repo\"#" $S/verif/harness/Cargo.toml
 export VERIF_REPO=$S/repo
 cd $S/repo || exit 2
-git apply --check "$DIR/patch.diff" || { echo "PATCH DOES NOT APPLY: $DIR"; exit 2; }
-git apply "$DIR/patch.diff"
+if git apply --check "$DIR/patch.diff" 2>/dev/null; then git apply "$DIR/patch.diff"; else git apply -3 "$DIR/patch.diff" >/dev/null 2>&1 || { echo "PATCH DOES NOT APPLY: $DIR"; git checkout -- .; exit 2; }; git reset -q; fi
 RES="MISSED"
 for SD in $SEEDS; do
   OUT=$(cd $S/verif && VERIF_SEED=$SD ./check "$ID" "$TIER" 2>&1); RC=$?
